@@ -9,25 +9,25 @@ TB = ("TLC/SANY; symbolic (Dolev-Yao) abstraction of the cryptography; the Rust 
       "TLC configuration, concrete bytes by pools / boundary values / seeded sampling")
 MC = "model_checking"
 CHECKS = {
-    "C01": (MC, "TLC model checking of spec/Opaque.tla (Agreement on MC_Bind, MC_Route, MC_Ksf) + replay of TLC-generated behaviours into the real API + TLC trace validation of recorded executions", "5 C01"),
-    "C02": (MC, "TLC model checking (MC_Route, wrong-password sessions) + replay with near-miss password families + trace validation", "5 C02"),
+    "C01": (MC, "TLC model checking of spec/Opaque.tla (Agreement on MC_Bind, MC_Route, MC_Ksf) + replay of TLC-generated behaviours into the real API (independent tapes, and correlated generators: every call reading the same tape) + TLC trace validation of recorded executions", "5 C01"),
+    "C02": (MC, "TLC model checking (MC_Route wrong-password sessions; MC_Pw: password at start x password at finish) + replay with near-miss password families (bit flips, prefixes, case, NUL, whitespace, 65535 bytes, digests of the registered password) + trace validation", "5 C02"),
     "C03": (MC, "TLC model checking (MC_Route) + replay with exhaustive bit/byte substitution of finalizations on every pending state", "5 C03"),
-    "C04": (MC, "TLC model checking (MC_Tamper) + replay with offset x value sweeps of every response field", "5 C04"),
+    "C04": (MC, "TLC model checking (MC_Tamper: altered / spliced response fields; MC_Req: responses made for mixed or adversary-made requests) + replay with offset x value sweeps of every response field", "5 C04"),
     "C05": (MC, "TLC model checking (MC_Bind: all parameter triples) + replay of all baselines and single-dimension deviations", "5 C05"),
     "C06": (MC, "TLC model checking (MC_Bind with same-seed/other-key setups) + replay", "5 C06"),
-    "C07": (MC, "TLC model checking (MC_Route: all routings, all interleavings) + replay + TLC trace validation of random adversarial histories", "5 C07"),
+    "C07": (MC, "TLC model checking (MC_Route: all routings, all interleavings; MC_RegAdv; MC_File: mixed / tampered password files) + replay (per-call tapes and one shared generator) + TLC trace validation of random adversarial histories", "5 C07"),
     "C08": (MC, "TLC model checking (absent-record sessions in MC_Route / MC_Tamper) + replay + trace validation", "5 C08"),
     "C09": ("other", "byte-exact conformance: TLC emits the full term of every output of honest executions (MC_Bytes); a reference term evaluator (no opaque-ke code) computes the bytes RFC 9807 / RFC 9497 prescribe and compares them with the implementation's outputs", "5 C09"),
     "C10": (MC, "TLC model checking of spec/Wire.tla (operational decoder model, all 20 suites) + verdict-table conformance of the real decoders + classifier-guided mutation", "5 C10"),
     "C11": (MC, "TLC model checking of spec/Wire.tla (NoInvalid) + every invalid class in every field through native, bincode and JSON decoders", "5 C11"),
-    "C12": ("exploration", "model-guided exploration under catch_unwind: Wire.tla verdict table + classifier-guided decoder inputs, TLC-generated behaviours with over-long parameters (MC_Long) and cross-delivered messages, recorded histories validated by TLC", "5 C12"),
+    "C12": ("exploration", "model-guided exploration under catch_unwind: Wire.tla verdict table + classifier-guided decoder inputs + structure-level mutation of the serde encodings, TLC-generated behaviours with over-long parameters (MC_Long), cross-delivered and tampered messages (MC_Tamper), adversarial requests (MC_Req, incl. twist / small-u Curve25519 keys), recorded histories validated by TLC", "5 C12"),
     "C13": (MC, "TLC model checking (MC_Persist: Reload is the identity) + replay with a shadow execution without reloads on the same tapes", "5 C13"),
     "C14": (MC, "TLC model checking (MC_Obliv) + replay: equality pattern of masking keys / requests / evaluation elements across blinding tapes, credential ids, seeds, static keys", "5 C14"),
-    "C15": (MC, "TLC model checking (MC_Ksf: instance matrix) + replay with an instrumented KSF", "5 C15"),
+    "C15": (MC, "TLC model checking (MC_Ksf: instance matrix) + replay with an instrumented KSF (call log) + TLC trace validation of KSF-matrix histories incl. failing instances and an Argon2 matrix (cost, secret, variant, version, output length)", "5 C15"),
     "C16": (MC, "TLC model checking (Agreement, ExportKeySeparated, NoSecretOnWire) + replay with a scan of all messages and files for verbatim secrets + trace validation", "5 C16"),
-    "C17": (MC, "TLC model checking + replay of behaviours annotated with per-output tape dependencies: equal tapes, independent tapes, tapes altered from every draw boundary on", "5 C17"),
-    "C18": (MC, "TLC model checking (MC_Ext) + replay with a shadow execution holding all keys directly, and failure of every external-key call position", "5 C18"),
-    "C19": ("exploration", "model-enumerated exploration: TLC enumerates spec/Group.tla (key classes x operations x reloads), the harness replays every behaviour on the key-pair API of all 5 groups x 4 OPRF suites and evaluates every term with reference curve arithmetic", "5 C19"),
+    "C17": (MC, "TLC model checking + replay of behaviours annotated with per-output tape dependencies: equal tapes, every step twice, independent tapes, tapes altered from every draw boundary on, single chunks replaced (role-to-bytes matching), structured tapes on which rejection sampling keeps rejecting", "5 C17"),
+    "C18": (MC, "TLC model checking (MC_Ext) + replay with a shadow execution holding all keys directly, and failure of every external-key call position in every server operation that consults the key", "5 C18"),
+    "C19": ("exploration", "model-enumerated exploration: TLC enumerates spec/Group.tla (key classes incl. derived, generated, extreme and imported keys x operations x reloads), the harness replays every behaviour on the key-pair API of all 5 groups x 4 OPRF suites and evaluates every term with reference curve arithmetic", "5 C19"),
 }
 TEXT = {
     "other": "Per-execution validation of the implementation's outputs against the specification's terms: the RFC formulas are the "
